@@ -11,7 +11,7 @@ import json, io
 from .core import use_repo
 use_repo()
 
-from spyne import Application, Service, rpc, srpc, Integer, Unicode, Fault, EventManager
+from spyne import Application, Service, rpc, srpc, Integer, Unicode, Fault, EventManager, Iterable
 from spyne.error import (ResourceNotFoundError, InvalidCredentialsError,
                          RequestNotAllowed, RequestTooLongError)
 from spyne.protocol.soap import Soap11, Soap12
@@ -29,7 +29,7 @@ CTX_EVENTS = ['method_context_created', 'method_context_closed', 'method_call',
               'method_return_document', 'method_exception_document',
               'method_return_string', 'method_exception_string']
 WSGI_EVENTS = ['wsgi_call', 'wsgi_return', 'wsgi_exception', 'wsgi_close']
-UNIT = 96          # bytes per abstract length unit of the wsgi scenarios
+UNIT = 160         # bytes per abstract length unit of the wsgi scenarios
 SECRET = 'S3CR3T-7f3a9'
 
 
@@ -78,6 +78,14 @@ def build(s, log, state):
                 return 'not-an-int'   # unserialisable for the eager XML serialisers
             return a + 1
 
+        @srpc(Integer, _returns=Iterable(Integer), _evmgr=mev)
+        def g(a):
+            log.append(['fn', 'call'])
+            raise_outcome(inj['fn'])
+            state['fnOk'] = True
+            yield a
+            yield a + 1
+
     inp = PROTS[fam][0](validator='soft')
     outp = PROTS[fam][1]()
     app = Application([S], 'tns', in_protocol=inp, out_protocol=outp)
@@ -95,7 +103,7 @@ def body_for(s):
     """-> (environ-extras, body bytes).  For wsgi scenarios the body is exactly
     len*UNIT bytes with the padding *inside* the document."""
     fam, cls = s['cfg']['family'], s['req']['class']
-    meth = 'zzz' if cls == 'unknown' else 'f'
+    meth = 'zzz' if cls == 'unknown' else ('g' if s['inj'].get('res') == 'gen' else 'f')
     arg = 'notint' if cls == 'badargs' else '5'
     env = {'REQUEST_METHOD': 'POST', 'PATH_INFO': '/', 'QUERY_STRING': '',
            'CONTENT_TYPE': 'text/xml; charset=utf-8'}
@@ -106,7 +114,7 @@ def body_for(s):
         E = {'soap11': 'http://schemas.xmlsoap.org/soap/envelope/',
              'soap12': 'http://www.w3.org/2003/05/soap-envelope'}[fam]
         if cls == 'badenvelope':
-            body = '<tns:f xmlns:tns="tns"><tns:a>5</tns:a>%s</tns:f>' % PAD
+            body = '<tns:%s xmlns:tns="tns"><tns:a>5</tns:a>%s</tns:%s>' % (meth, PAD, meth)
         else:
             body = ('<e:Envelope xmlns:e="%s" xmlns:tns="tns"><e:Body><tns:%s><tns:a>%s</tns:a>%s'
                     '</tns:%s></e:Body></e:Envelope>' % (E, meth, arg, PAD, meth))
@@ -188,13 +196,22 @@ def run(s):
         block = s['cfg']['block'] * UNIT if units else 8192
         w = WsgiApplication(app, chunked=s['cfg']['chunked'], max_content_length=maxlen,
                             block_length=block)
-        for e in WSGI_EVENTS:
+        for e in WSGI_EVENTS + ['wsdl', 'wsdl_exception']:
             w.event_manager.add_listener(e, (lambda e: lambda ctx: (log.append(['wsgi', e]), state.__setitem__('ctx', ctx)))(e))
         inp = CountingInput(body, log, U)
         env.update({'wsgi.url_scheme': 'http', 'SERVER_NAME': 'x', 'SERVER_PORT': '80',
                     'wsgi.input': inp})
+        kind = s['req'].get('kind', 'rpc')
+        if kind != 'rpc':
+            env.update(REQUEST_METHOD='GET', QUERY_STRING='wsdl', PATH_INFO='/')
+            env.pop('CONTENT_TYPE', None)
+            if kind == 'wsdlerr':
+                def boom(doc): raise Boom(SECRET)
+                w.doc.wsdl11.event_manager.add_listener('wsdl_document_built', boom)
         d = s['req']['declared']
-        if not units:
+        if kind != 'rpc':
+            pass
+        elif not units:
             env['CONTENT_LENGTH'] = str(len(body))
         elif d == -1:
             pass
@@ -267,17 +284,17 @@ def run(s):
     declared_eff = maxlen_u if declared_units == -1 else (0 if declared_units == -2 else declared_units)
     rec['obs'] = log
     rec['k'] = {
-        'tr': s['cfg']['tr'], 'soap': s['cfg']['family'] in ('soap11', 'soap12'),
+        'tr': s['cfg']['tr'], 'rpc': s['req'].get('kind', 'rpc') == 'rpc', 'soap': s['cfg']['family'] in ('soap11', 'soap12'),
         'done': not any(e[0] == 'escape' for e in log),
         'fault': err is not None, 'fnOk': state['fnOk'],
         'infault': ierr is not None,
-        'malformed': s['req']['class'] != 'valid' or (units and s['cfg']['family'] != 'http'
-                      and min(declared_eff, s['req']['len']) < s['req']['len'] and declared_eff <= maxlen_u),
+        'malformed': s['req'].get('kind', 'rpc') == 'rpc' and (s['req']['class'] != 'valid' or (units and s['cfg']['family'] != 'http'
+                      and min(declared_eff, s['req']['len']) < s['req']['len'] and declared_eff <= maxlen_u)),
         'code': code, 'cls': cls, 'status': status[0],
         'statusKnown': s['inj']['ser'] == 'ok',
         'maxlen': maxlen_u if units else 1 << 20,
         'declared': declared_eff if units else len(body),
-        'toolong': bool(units and declared_eff > maxlen_u),
+        'toolong': bool(units and declared_eff > maxlen_u and s['req'].get('kind', 'rpc') == 'rpc'),
         'nread': (-(-inp.n // UNIT) if units else inp.n) if inp is not None else 0,
         'aborted': s['abort'] != 99,
         'hdrOk': hdr_ok[0], 'clen': clen[0], 'bodyBytes': body_bytes[0], 'bytesOk': bytes_ok[0],
